@@ -6,6 +6,7 @@ usage: seedtest.py <dir with patch.diff demo_test.go notes.txt> <seed-id> <prope
 Writes /verif/seeded/<seed-id>/ {patch.diff, demo_test.go, meta.json}."""
 import json, os, shutil, subprocess, sys, time
 
+VHOME = os.path.dirname(os.path.dirname(os.path.abspath(__file__)))
 DEMOFLAGS = os.environ.get("SEED_DEMO_FLAGS", "")
 ENV = dict(os.environ, GOFLAGS="-mod=mod", GOPROXY="off", GOSUMDB="off", GOTOOLCHAIN="local")
 
@@ -72,7 +73,7 @@ def main():
     try:
         for p in props:
             t0 = time.time()
-            rc, o = sh("bin/check %s quick" % p, cwd="/verif", timeout=3600)
+            rc, o = sh("bin/check %s quick" % p, cwd=VHOME, timeout=3600)
             viol = [l for l in o.split("\n") if l.startswith("VIOLATION")]
             tail = [l for l in o.split("\n") if l.strip()][-1:] if o.strip() else []
             first_fail = [l.strip()[:400] for l in o.split("\n") if l.strip().startswith("failing input:") or l.strip().startswith("no longer checks:")][:3]
@@ -86,7 +87,7 @@ def main():
             sh("git -C /repo checkout -- .")
     meta["caught_by"] = [p for p, v in meta["checks"].items() if v["exit"] != 0]
     meta["what_was_run"] = "scratch worktree: go build, go vet, go test ./... with the change (pass), demo with the change (fail), demo without (pass)" + ((" [demo run with " + DEMOFLAGS + "]") if DEMOFLAGS else "") + ("; then bin/check <property> quick for " + ", ".join(props) + " with VERIF_REPO pointing at a scratch worktree holding the change (/repo was being read by a long run)" if scratch else "; then git -C /repo apply, bin/check <property> quick for " + ", ".join(props) + ", git -C /repo checkout -- .")
-    out = os.path.join("/verif/seeded", sid)
+    out = os.path.join(VHOME + "/seeded", sid)
     os.makedirs(out, exist_ok=True)
     shutil.copy(patch, os.path.join(out, "patch.diff"))
     shutil.copy(demo, os.path.join(out, "demo_test.go"))
